@@ -278,7 +278,7 @@ impl Property for P {
         ]
     }
     fn workloads(&self, tier: Tier) -> Vec<Workload> {
-        vec![Workload::new("histories", tier.pick(6_000, 250_000), false, "random exchange histories + advance probes at every step")]
+        vec![Workload::new("histories", tier.pick(6_000, 1_500_000), false, "random exchange histories + advance probes at every step")]
     }
     fn run_case(&self, wl: &str, idx: u64, seed: u64, rec: &mut Rec) {
         let mut rng = Rng::derive(seed, wl, idx);
